@@ -69,10 +69,14 @@ class Circuit:
                 (pos.get("x"), pos.get("y")), e.get("control_behavior", {}) or {}, e)
         self.wires = [tuple(w) for w in b.get("wires", [])]
         self._parent = {}
+        # connectors that have a circuit wire.  ASSUMPTION (S4, cannot be checked offline): a wire from a connector to itself — what the
+        # compiler emits for an entity whose condition reads its own report — is taken to form a one-entity network, as the compiler intends
+        self.wired = set()
         for (e1, c1, e2, c2) in self.wires:
             if c1 in (5, 6) or c2 in (5, 6):
                 continue
             self._union((e1, c1), (e2, c2))
+            self.wired.add((e1, c1)), self.wired.add((e2, c2))
 
     # ------------------------------------------------------------------ union find
     def _find(self, x):
@@ -263,6 +267,8 @@ class Evaluator:
         for colour in ("red", "green"):
             if not sel[colour]:
                 continue
+            if e.kind == "other" and (e.num, self.c.in_conn(e, colour)) not in self.c.wired:
+                continue   # a single-connector entity without a wire of this colour is on no network: it does not read its own report back
             n = self.c.net(e.num, self.c.in_conn(e, colour))
             for p in self.c.producers(n):
                 if not self.visible(p, e):
@@ -281,6 +287,8 @@ class Evaluator:
         for colour in ("red", "green"):
             if not sel[colour]:
                 continue
+            if e.kind == "other" and (e.num, self.c.in_conn(e, colour)) not in self.c.wired:
+                continue   # a single-connector entity without a wire of this colour is on no network: it does not read its own report back
             n = self.c.net(e.num, self.c.in_conn(e, colour))
             for s, v in self.content(n).items():
                 self._add(acc, s, v)
